@@ -26,7 +26,7 @@ func isTxMethod(ins ssa.Instruction, name string) bool {
 }
 
 func runC14(c *Ctx) {
-	c.rule("C14-R1", "ORD typestate on *sql.Tx: in every function that begins a transaction and does not return it: from the callback's err!=nil edge every path to return passes tx.Rollback and none reaches tx.Commit; from its err==nil edge every path to return passes tx.Commit; a deferred closure calls recover() itself (not through a helper, where it returns nil), rolls back on the recovered!=nil edge and re-panics with the recovered value; Commit is never reachable in a deferred function without its own recover()==nil test; Commit is not reachable after Rollback")
+	c.rule("C14-R1", "ORD typestate on *sql.Tx: in every function that begins a transaction and does not return it: from the callback's err!=nil edge every path to return passes tx.Rollback and none reaches tx.Commit; from its err==nil edge every path to return passes tx.Commit; a deferred closure calls recover() itself (not through a helper, where it returns nil), rolls back on the recovered!=nil edge and re-panics with the recovered value; Commit is never reachable in a deferred function without its own recover()==nil test; Commit is not reachable after Rollback. A function that opens a SAVEPOINT on a transaction it was given (nested transaction) is held to the same typestate with ROLLBACK TO SAVEPOINT / RELEASE SAVEPOINT in the roles of Rollback / Commit")
 	scope := []string{dbPkg}
 	if c.Tier == "thorough" {
 		scope = nil
@@ -34,7 +34,7 @@ func runC14(c *Ctx) {
 			scope = append(scope, strings.TrimPrefix(p, modPath+"/"))
 		}
 	}
-	nTx := 0
+	nTx, nSave := 0, 0
 	for _, rel := range scope {
 		for _, fn := range c.srcFuncs(rel) {
 			if fn.Parent() != nil {
@@ -57,8 +57,18 @@ func runC14(c *Ctx) {
 				}
 				txs = append(txs, extractOf(call, 0)...)
 			})
+			// … or opens a savepoint on a transaction it was given (a nested transaction): the same typestate,
+			// with ROLLBACK TO SAVEPOINT / RELEASE SAVEPOINT in the roles of Rollback / Commit
+			savepoint := false
 			if len(txs) == 0 {
-				continue
+				eachInstr(fn, func(_ *ssa.BasicBlock, _ int, ins ssa.Instruction) {
+					if sqlTextHasPrefix(ins, "SAVEPOINT ") {
+						savepoint = true
+					}
+				})
+				if !savepoint {
+					continue
+				}
 			}
 			// returns the tx? then it is a Begin wrapper, not a transaction function
 			returnsTx := false
@@ -98,6 +108,13 @@ func runC14(c *Ctx) {
 			}
 			isRollback := func(x ssa.Instruction) bool { return isTxMethod(x, "Rollback") && !isDeferInstr(x) }
 			isCommit := func(x ssa.Instruction) bool { return isTxMethod(x, "Commit") }
+			isRollbackAny := func(x ssa.Instruction) bool { return isTxMethod(x, "Rollback") }
+			if savepoint {
+				isRollback = func(x ssa.Instruction) bool { return sqlTextHasPrefix(x, "ROLLBACK TO") && !isDeferInstr(x) }
+				isCommit = func(x ssa.Instruction) bool { return sqlTextHasPrefix(x, "RELEASE") }
+				isRollbackAny = func(x ssa.Instruction) bool { return sqlTextHasPrefix(x, "ROLLBACK TO") }
+				nSave++
+			}
 			for i, cb := range cbErrs {
 				// err != nil edge
 				var errBlocks, okBlocks []*ssa.BasicBlock
@@ -189,7 +206,7 @@ func runC14(c *Ctx) {
 							if !nonNilOnEdge(b, si, r) {
 								continue
 							}
-							q := &pathQuery{fn: df, target: isExit, stop: func(x ssa.Instruction) bool { return isTxMethod(x, "Rollback") }}
+							q := &pathQuery{fn: df, target: isExit, stop: isRollbackAny}
 							hit, _ := q.from(s, 0)
 							q2 := &pathQuery{fn: df, target: isReturn}
 							hit2, _ := q2.from(s, 0)
@@ -224,6 +241,7 @@ func runC14(c *Ctx) {
 		}
 	}
 	c.Sites["C14-R1#transaction-functions"] = nTx
+	c.Sites["C14-R1#savepoint-functions"] = nSave
 	if nTx < 2 {
 		c.undecided("C14-R1: %d transaction functions found, floor 2", nTx)
 	}
@@ -491,4 +509,34 @@ func runC14(c *Ctx) {
 		}
 		c.floor("C14-R3", 3)
 	}
+}
+
+// sqlTextHasPrefix: ins executes SQL (a method of *sql.Tx/*sql.DB/*sql.Conn or the repository's Database) whose text
+// argument is a constant, or a concatenation starting with a constant, that begins with prefix (case-insensitive).
+func sqlTextHasPrefix(ins ssa.Instruction, prefix string) bool {
+	call, ok := ins.(ssa.CallInstruction)
+	if !ok {
+		return false
+	}
+	f := calleeOf(call)
+	if f == nil || !sqlSinkMethods[f.Name()] {
+		return false
+	}
+	for _, a := range call.Common().Args {
+		if !isStringType(a.Type()) {
+			continue
+		}
+		v := a
+		for {
+			if bo, ok := v.(*ssa.BinOp); ok && bo.Op == token.ADD {
+				v = bo.X
+				continue
+			}
+			break
+		}
+		if s, ok := constString(v); ok && strings.HasPrefix(strings.ToUpper(strings.TrimLeft(s, " ")), strings.ToUpper(prefix)) {
+			return true
+		}
+	}
+	return false
 }
